@@ -75,7 +75,7 @@ def run(ctx):
         for cls, init, steps in DIRECTED:
             case = {'cls': cls, 'init': init, 'steps': [list(x) for x in steps]}
             ctx.run_case(lambda c, k: episode(c, k), case)
-    n = ctx.scale(40000, 1200000)
+    n = ctx.scale(80000, 1600000)
     lengths = util.SHORT_LENGTHS + [255, 256, 257, 1000, 1024] + ([] if ctx.quick else [4097, 8193])
     for i in range(n):
         L = ctx.rng.choice(lengths)
